@@ -199,3 +199,285 @@ def _check_entry(r, rel, enc, st, atoms, datom, eatom, names, drange, same_line,
             for i, (g, w) in enumerate(zip(srcs, want)):
                 if g != w:
                     r.violate(key + ':field%d' % (i + 1), rel, vi[i][3], 'long form: var-int %d encodes %s, the format requires %s' % (i + 1, g, w))
+
+
+# =====================================================================================================  C12 LZSS
+def _check_backref(r, s2, dec, out, form, key, rel_c, decl, ref_block, params, ln, offend, c_walk, c_strip, c_name):
+    path = ''.join('T' if t[1] else 'F' for t in dec.trace)
+    if dec.consumed != len(out):
+        r.violate(key + ':consumed', rel_c, decl[0].line,
+                  '%s token: encoder emits %d byte(s) but the decoder branch %s consumes %d (a format marker bit tested by the decoder is not fixed by the encoder, or the forms disagree)' % (form, len(out), path, dec.consumed))
+        return
+    mem = [c for c in dec.calls if c[0] in ('memcpy', 'memmove', '__builtin_memcpy')]
+    if not mem:
+        r.violate(key + ':no-copy', rel_c, decl[0].line, 'decoder back-reference block performs no memcpy on branch %s' % path)
+        return
+    # the amount the output position advances by is the decoded match length
+    adv = [(v, a) for v, lst in dec.advances.items() for (op, a, nm) in lst if op == '+' and v.startswith('out')]
+    mav = adv[-1][1] if adv else mem[-1][1][2]
+    mlin = s2.root(s2.as_lin(mav) or mav.lin) if mav is not None else None
+    if mlin != (ln, 0):
+        r.violate(key + ':match-length', rel_c, decl[0].line,
+                  '%s token: the decoder advances the output by %s, which is not the match length the encoder stored (expected %s)' % (form, mlin, (ln, 0)))
+    for c in mem:
+        sz = c[1][2]
+        slin = s2.root(s2.as_lin(sz) or sz.lin) if sz is not None else None
+        if slin != (ln, 0):
+            r.violate(key + ':copy-size', rel_c, decl[0].line,
+                      '%s token: memcpy copies %s bytes (branch %s) but the token denotes %s bytes: the surplus is written beyond the decoded data, possibly past the end of the output buffer'
+                      % (form, slin if slin else 'a different number of', path, (ln, 0)))
+    endv = None
+    mnames = {c[2][2] for c in mem if c[2][2]} | {nm for v, lst in dec.advances.items() for (op, a, nm) in lst if nm}
+    for n in c_walk(ref_block):
+        if n.get('kind') == 'VarDecl' and n.get('inner'):
+            init = c_strip(n['inner'][-1])
+            names = [c_name(x) for x in c_walk(init) if c_name(x)]
+            if init.get('opcode') == '-' and mnames & set(names):
+                others = [x for x in names if x not in mnames and x in dec.env and x not in params and not x.startswith('out')]
+                if others:
+                    endv = others[0]
+    if endv is None:
+        r.violate(key + ':no-end-offset', rel_c, decl[0].line, 'decoder: reference position is not computed as out_pos - end_offset - match_length')
+        return
+    eav = dec.env[endv]
+    elin = s2.root(s2.as_lin(eav) or eav.lin)
+    if elin != s2.root((offend, 0)):
+        r.violate(key + ':end-offset', rel_c, decl[0].line,
+                  '%s token: the decoder reconstructs end offset %s but the encoder stored %s — offset bit fields / bias / range guard disagree (%r)' % (form, elin, s2.root((offend, 0)), s2.norm(eav)))
+
+
+def lzss_rules(ctx):
+    from ..engine import cabs
+    from ..engine.absint import clang_function_ast, c_walk, c_strip, c_name
+    from ..engine.pyindex import walk_no_nested
+    rel_py, rel_c = 'Cython/LZSS.py', 'Cython/Utility/StringTools.c'
+    tree = ctx.parse(rel_py)
+    comp = None
+    for n in tree.body:
+        if isinstance(n, ast.FunctionDef) and 'compress' in n.name:
+            comp = n
+    if comp is None:
+        raise AnalysisError('LZSS compressor function not found')
+    # ---- encoder: the main token loop and its roles
+    loop = None
+    for n in comp.body:
+        if isinstance(n, ast.While) and any(isinstance(x, ast.Call) and isinstance(x.func, ast.Attribute) and x.func.attr == 'append' for x in ast.walk(n)):
+            loop = n
+    if loop is None:
+        raise AnalysisError('token loop of the compressor not found')
+    # LEN role: `pos += LEN` ; OFF role: `(OFF, LEN) = finder(pos)` and `OFF -= LEN`
+    posvar = loop.test.left.id if isinstance(loop.test, ast.Compare) and isinstance(loop.test.left, ast.Name) else None
+    lenvar = offvar = None
+    for s in loop.body:
+        if isinstance(s, ast.AugAssign) and isinstance(s.op, ast.Add) and isinstance(s.target, ast.Name) and s.target.id == posvar and isinstance(s.value, ast.Name):
+            lenvar = s.value.id
+    for s in loop.body:
+        if isinstance(s, ast.AugAssign) and isinstance(s.op, ast.Sub) and isinstance(s.value, ast.Name) and s.value.id == lenvar and isinstance(s.target, ast.Name):
+            offvar = s.target.id
+    if not (posvar and lenvar and offvar):
+        raise AnalysisError('cannot identify the roles (position, match length, offset) in the compressor loop')
+    # maximum match length constant: MAX_MATCH = min(C, ...)
+    maxlen = None
+    for n in ast.walk(comp):
+        if isinstance(n, (ast.Assign, ast.AnnAssign)) and isinstance(n.value, ast.Call) and isinstance(n.value.func, ast.Name) and n.value.func.id == 'min' and n.value.args:
+            t = n.targets[0] if isinstance(n, ast.Assign) else n.target
+            if isinstance(t, ast.Name) and 'MATCH' in t.id.upper():
+                try:
+                    maxlen = eval(compile(ast.Expression(n.value.args[0]), '<const>', 'eval'), {'__builtins__': {}})
+                except Exception:
+                    maxlen = None
+    if not isinstance(maxlen, int):
+        raise AnalysisError('MAX_MATCH bound not found in the compressor')
+    flagvar = None
+    for s in loop.body:
+        if isinstance(s, ast.If) and isinstance(s.test, ast.Compare) and isinstance(s.test.left, ast.Name) and isinstance(s.test.comparators[0], ast.Constant) \
+                and s.test.comparators[0].value == 1 and any(isinstance(x, ast.Subscript) for x in ast.walk(s)):
+            flagvar = s.test.left.id
+    if flagvar is None:
+        raise AnalysisError('literal flag variable not found')
+    start = [i for i, s in enumerate(loop.body) if isinstance(s, ast.AugAssign) and isinstance(s.target, ast.Name) and s.target.id == offvar][0]
+    stop = [i for i, s in enumerate(loop.body) if isinstance(s, ast.AugAssign) and isinstance(s.target, ast.Name) and s.target.id == posvar][0]
+    pre = [s for s in loop.body[:start] if isinstance(s, ast.Assign) and isinstance(s.targets[0], ast.Name) and isinstance(s.value, ast.Constant)]
+    pa = pyabs.PyAbs({})
+    pa.byte_subscripts = True
+    st = State()
+    off0 = st.atom(offvar, 0, None)
+    ln = st.atom(lenvar, 0, maxlen)
+    st.env[offvar] = st.atom_av(off0)
+    st.env[lenvar] = st.atom_av(ln)
+    res0 = pa.block(pre + [loop.body[start]], [st], 0, 0)
+    st1 = res0[0][0]
+    offend = st1.env[offvar].lin[0] if st1.env[offvar].lin else None
+    if offend is None:
+        raise AnalysisError('end-offset atom not established')
+    res = pa.block(loop.body[start + 1:stop], [st1], 0, 0)
+
+    # ---- decoder: clang AST of the decompress function
+    sec = ctx.cat.section('StringTools.c', 'DecompressString_LZSS', 'impl')
+    if sec is None:
+        raise AnalysisError('utility section DecompressString_LZSS not found')
+    decl = [d for d in ctx.cat.decls.get('__pyx_lzss_decompress', []) if d.kind == 'func']
+    if not decl:
+        raise AnalysisError('__pyx_lzss_decompress not found')
+    head = 'static size_t __pyx_lzss_decompress(%s) ' % ', '.join(decl[0].params)
+    fast = clang_function_ast('#define CYTHON_UNUSED\n#define CYTHON_SMALL_CODE\n' + head + decl[0].body + '\n', '__pyx_lzss_decompress')
+    body = [c for c in fast['inner'] if c.get('kind') == 'CompoundStmt'][0]
+    params = [c['name'] for c in fast['inner'] if c.get('kind') == 'ParmVarDecl']
+    srcname = params[0]
+    # the token dispatch: if (flags & 1) literal else backref
+    tok_if = None
+    for n in c_walk(body):
+        if n.get('kind') == 'IfStmt':
+            cond = c_strip(n['inner'][0])
+            if cond.get('kind') == 'BinaryOperator' and cond.get('opcode') == '&' and c_strip(cond['inner'][1]).get('value') == '1':
+                tok_if = n
+                flags_c = c_name(cond['inner'][0])
+    if tok_if is None or len(tok_if['inner']) < 3:
+        raise AnalysisError('decoder: token dispatch `if (flags & 1) ... else ...` not found')
+    lit_block, ref_block = tok_if['inner'][1], tok_if['inner'][2]
+
+    r = Rule('C12-BITS', 'known-bits/provenance abstract interpretation: for every token form the compressor (LZSS.py) can emit, the decompressor (__pyx_lzss_decompress) '
+             'takes the matching branch, consumes exactly the emitted bytes and reconstructs the same end offset and match length; emitted values fit a byte', floor=4)
+    nforms = 0
+    for s2, kind, val in res:
+        out = s2.out
+        fl = s2.norm(s2.env.get(flagvar, AV()))
+        if fl.lo != fl.hi:
+            r.violate('LZSS.compress:flag-undetermined', rel_py, loop.lineno, 'the literal flag is not determined on an encoder path')
+            continue
+        nforms += 1
+        form = 'literal' if fl.lo == 1 else 'backref/%d-byte' % len(out)
+        key = 'LZSS:%s' % form
+        r.inst(key + ':%d' % nforms, sample='%s: %s' % (form, [repr(s2.norm(e.av))[:90] for e in out]))
+        for i, e in enumerate(out):
+            av = s2.norm(e.av)
+            if av.lo is None or av.lo < 0 or av.hi is None or av.hi > 255:
+                r.violate(key + ':byte%d-range' % i, rel_py, e.where,
+                          'encoder emits a value in %s..%s as byte %d of a %s token: bytearray.append() needs 0..255 (assuming match length <= %d)' % (av.lo, av.hi, i, form, maxlen))
+        dec0 = cabs.CAbs(s2, [e.av for e in out], srcname)
+        if fl.lo == 1:
+            for dec in dec0.run_all(lit_block):
+                if dec.consumed != len(out) or len(out) != 1:
+                    r.violate(key + ':consumed', rel_c, decl[0].line, 'literal token: encoder emits %d byte(s), decoder consumes %d' % (len(out), dec.consumed))
+            continue
+        finals = dec0.run_all(ref_block)
+        forked_on_input = [d for d in finals if any(len(t) > 2 and t[2] for t in d.trace)]
+        for dec in finals:
+            _check_backref(r, s2, dec, out, form, key, rel_c, decl, ref_block, params, ln, offend, c_walk, c_strip, c_name)
+    if nforms < 4:
+        r.violate('LZSS:forms', rel_py, loop.lineno, 'only %d token forms found in the encoder (expected literal + 3 back-reference encodings)' % nforms)
+
+    # ---- structural clauses of the decoder loop
+    r2 = Rule('C12-STRUCT', 'decoder: copy size equals the output advance; output-full test follows every token; the caller compares the consumed length with the compressed length; '
+              'flag byte shift register agrees (encoder fills from bit 7 shifting right, decoder reads bit 0 shifting right, 8 tokens per flag byte)', floor=4)
+    # (1) memcpy size == out advance
+    r2.inst('decoder:copy-size')
+    ok = False
+    for n in c_walk(ref_block):
+        if n.get('kind') == 'CallExpr' and c_name(n['inner'][0]) in ('memcpy', 'memmove'):
+            size = c_name(n['inner'][3])
+            dstbase = [c_name(x) for x in c_walk(n['inner'][1]) if c_name(x)]
+            adv = [c_name(x['inner'][1]) for x in c_walk(ref_block) if x.get('kind') == 'CompoundAssignOperator' and x.get('opcode') == '+=' and c_name(x['inner'][0]) in dstbase]
+            ok = size is not None and size in adv
+            if not ok:
+                r2.violate('StringTools.__pyx_lzss_decompress:copy-size', rel_c, decl[0].line,
+                           'memcpy into the output copies %r bytes but the output position advances by %s: bytes beyond the advance are written (possibly past the end of the buffer)' % (
+                               size or 'a constant/expression', adv))
+    # (2) bound test after every token: in the inner while body, the statement after the token if is `if (out_pos >= dst_len) return`
+    r2.inst('decoder:bound-test')
+    inner_while = None
+    for n in c_walk(body):
+        if n.get('kind') == 'WhileStmt' and any(x is tok_if for x in c_walk(n)):
+            inner_while = n
+    stmts = [c for c in inner_while['inner'][1].get('inner', [])] if inner_while else []
+    idx = [i for i, x in enumerate(stmts) if x is tok_if]
+    good = False
+    if idx and idx[0] + 1 < len(stmts):
+        nxt = stmts[idx[0] + 1]
+        if nxt.get('kind') == 'IfStmt':
+            cond = c_strip(nxt['inner'][0])
+            names = [c_name(x) for x in c_walk(cond) if c_name(x)]
+            has_ret = any(x.get('kind') == 'ReturnStmt' for x in c_walk(nxt['inner'][1]))
+            good = cond.get('opcode') == '>=' and params[2] in names and has_ret
+    if not good:
+        r2.violate('StringTools.__pyx_lzss_decompress:bound-test', rel_c, decl[0].line,
+                   'the decoder does not test the output position against %s immediately after each token: padding tokens of the last flag byte would be decoded past the output buffer' % params[2])
+    # (3) caller compares result with compressed_length
+    r2.inst('caller:length-check')
+    cal = [d for d in ctx.cat.decls.get('__Pyx_DecompressString_LZSS', []) if d.kind == 'func']
+    if not cal or not re.search(r'(\w+)\s*=\s*__pyx_lzss_decompress\s*\(', cal[0].body) or \
+            not re.search(r'if\s*\(\s*(?:unlikely\s*\()?\s*%s\s*!=\s*compressed_length' % re.search(r'(\w+)\s*=\s*__pyx_lzss_decompress\s*\(', cal[0].body).group(1), cal[0].body):
+        r2.violate('StringTools.__Pyx_DecompressString_LZSS:length-check', rel_c, cal[0].line if cal else 0,
+                   'the caller does not compare the consumed input length with compressed_length (corrupt data would be accepted)')
+    # (4) flag shift register
+    r2.inst('flags:shift-register')
+    enc_upd = None
+    for s in loop.body:
+        if isinstance(s, ast.Assign) and isinstance(s.value, ast.BinOp) and isinstance(s.value.op, ast.BitOr) and any(isinstance(x, ast.Name) and x.id == flagvar for x in ast.walk(s.value)):
+            enc_upd = s
+    if enc_upd is None:
+        r2.violate('LZSS.compress:flags-update', rel_py, loop.lineno, 'flag register update not found')
+    else:
+        fv = enc_upd.targets[0].id
+        init = None
+        for s in comp.body:
+            if isinstance(s, (ast.Assign, ast.AnnAssign)):
+                t = s.targets[0] if isinstance(s, ast.Assign) else s.target
+                if isinstance(t, ast.Name) and t.id == fv and isinstance(s.value, ast.Constant):
+                    init = s.value.value
+        inits = {n2.value.value for n2 in ast.walk(comp) if isinstance(n2, (ast.Assign, ast.AnnAssign)) and isinstance(n2.value, ast.Constant)
+                 and isinstance(n2.value.value, int) and any(isinstance(t, ast.Name) and t.id == fv for t in (n2.targets if isinstance(n2, ast.Assign) else [n2.target]))}
+        if len(inits) > 1:
+            r2.violate('LZSS.compress:flags-reset', rel_py, enc_upd.lineno, 'the flag register is initialised and reset with different sentinels %s: groups after the first hold a different number of tokens' % sorted(hex(x) for x in inits))
+        thr = None
+        for s in loop.body:
+            if isinstance(s, ast.If) and isinstance(s.test, ast.Compare) and isinstance(s.test.left, ast.Name) and s.test.left.id == fv and isinstance(s.test.ops[0], ast.Lt):
+                thr = s.test.comparators[0].value if isinstance(s.test.comparators[0], ast.Constant) else None
+        st3 = State()
+        pa3 = pyabs.PyAbs({})
+        st3.env[fv] = const(init if isinstance(init, int) else 0)
+        fat = []
+        flushed_at = None
+        for i in range(1, 10):
+            a = st3.atom('f%d' % i, 0, 1)
+            fat.append(a)
+            st3.env[flagvar] = st3.atom_av(a)
+            st3.env[fv] = pa3.ev(st3, enc_upd.value)
+            cur = st3.norm(st3.env[fv])
+            if thr is not None and cur.hi is not None and cur.hi < thr:
+                flushed_at = i
+                break
+        byte = binop(st3, '&', st3.env[fv], const(0xFF))
+        if flushed_at != 8:
+            r2.violate('LZSS.compress:flags-per-byte', rel_py, enc_upd.lineno, 'the encoder flushes a flag byte after %s tokens (8 expected by the decoder)' % flushed_at)
+        else:
+            # decoder: flags = byte | K ; while (flags & M) { if (flags & 1) ...; flags >>= 1 }
+            k_or = m_and = None
+            for n in c_walk(body):
+                if n.get('kind') == 'VarDecl' and n.get('name') == flags_c and n.get('inner'):
+                    e = c_strip(n['inner'][-1])
+                    if e.get('opcode') == '|':
+                        k_or = int(c_strip(e['inner'][1]).get('value', '0'))
+            wc = c_strip(inner_while['inner'][0]) if inner_while else {}
+            if wc.get('opcode') == '&':
+                m_and = int(c_strip(wc['inner'][1]).get('value', '0'))
+            sh = [x for x in c_walk(inner_while) if x.get('kind') == 'CompoundAssignOperator' and x.get('opcode') == '>>=' and c_name(x['inner'][0]) == flags_c] if inner_while else []
+            if k_or is None or m_and is None or not sh:
+                r2.violate('StringTools.__pyx_lzss_decompress:flags', rel_c, decl[0].line, 'decoder flag register structure not recognised')
+            else:
+                cur = binop(st3, '|', byte, const(k_or))
+                okf = True
+                for i in range(8):
+                    cont = binop(st3, '&', cur, const(m_and))
+                    if not (cont.lo is not None and cont.lo > 0):
+                        okf = False
+                    if cur.bits[0] != ('b', fat[i], 0):
+                        okf = False
+                    cur = binop(st3, '>>', cur, const(int(c_strip(sh[0]['inner'][1]).get('value', '1'))))
+                cont = binop(st3, '&', cur, const(m_and))
+                if not (cont.hi == 0):
+                    okf = False
+                if not okf:
+                    r2.violate('LZSS:flag-order', rel_c, decl[0].line,
+                               'flag register mismatch: token i of a group is not read from the bit the encoder stored it in, or the decoder does not stop after 8 tokens (encoder byte bits %r)' % (byte.bits[:8],))
+    return [r, r2]
